@@ -156,6 +156,28 @@ func match(exp []progen.Diag, rs []*reported) (missed []string, extra []string) 
 	return
 }
 
+// subdirs lists the directories (relative, slash separated) that hold a Thrift file in both versions.
+func subdirs(before, after *progen.Program) []string {
+	in := func(p *progen.Program) map[string]bool {
+		m := map[string]bool{}
+		for _, f := range p.Files {
+			if !f.Deleted && f.Dir != "" {
+				m[f.Dir] = true
+			}
+		}
+		return m
+	}
+	a, b := in(before), in(after)
+	var out []string
+	for d := range a {
+		if b[d] {
+			out = append(out, d)
+		}
+	}
+	sort.Strings(out)
+	return out
+}
+
 func commitAll(wt *git.Worktree, msg string, n int) error {
 	_, err := commitWith(wt, msg, n, nil)
 	return err
@@ -260,7 +282,9 @@ func RunC20(cfg simrt.Config, o world.Opts) *world.Result {
 		return res
 	}
 	s.Inline(func() {
-		before := progen.Gen(progen.Options{MaxFiles: 3, MaxDefs: 5, WantService: true, Unions: true, Exceptions: true, Defaults: true, Consts: true})
+		// directory names that begin with two dots are ordinary names
+		before := progen.Gen(progen.Options{MaxFiles: 3, MaxDefs: 5, WantService: true, Unions: true, Exceptions: true, Defaults: true, Consts: true,
+			ExtraDirs: []string{"..arch", "..arch/v1"}})
 		// a twin: the same content under the same base name in another directory, edited
 		// the same way (two files then yield textually identical diagnostics)
 		twinOf, twin := -1, -1
@@ -439,6 +463,14 @@ func RunC20(cfg simrt.Config, o world.Opts) *world.Result {
 				cwd, args = repo, nil
 			case 3:
 				cwd, args = repo, []string{"-C", "."}
+			}
+			// ... or by one of its sub-directories (the repository is found from there; paths in
+			// diagnostics stay relative to the repository)
+			if sub := subdirs(before, after); len(sub) > 0 && simrt.Flip("c20.repo-subdir", 0.15) {
+				d := sub[ch("c20.repo-subdir-pick", len(sub))]
+				cwd, args = "", []string{"-C", filepath.Join(repo, filepath.FromSlash(d))}
+				logf("repository named by its sub-directory %s", d)
+				res.Count("c20.repository-named-by-a-subdirectory", 1)
 			}
 			if jsonMode {
 				args = append(args, "-json")
